@@ -41,7 +41,8 @@ SCENARIO (all keys optional except connections; proxy_port is assigned 20000+ind
   timeout_ms (per response, default 10000), drain_timeout_ms (5000), scenario_timeout_ms (60000)
   status_task_ms  n: run a REAL gpa::proxy_agent_status::ProxyAgentStatusTask (interval n ms, >= 2) writing
                   <scratch>/status.<proxy_port>/status.json for the scenario; see RESULT status_json
-CONNECTION  local_port (bind before connect, SO_REUSEADDR; default ephemeral), audit (record inserted
+CONNECTION  local_ip (source address, default 127.0.0.1; any 127.x.y.z works -- the audit map is keyed by PORT only, so
+  127.0.0.2:P can be bound while 127.0.0.1:P is still connected), local_port (bind before connect, SO_REUSEADDR; default ephemeral), audit (record inserted
   under the local port BEFORE connecting), requests [req], pipelined (write all, then read),
   ops_before_connect, ops_before_close, timeout_ms
 REQUEST     raw (bytes), ops_before, ops_after, timeout_ms, split_at + split_pause_ms (two writes)
@@ -57,7 +58,10 @@ OPS         {"op": "update_key", guid, key, incarnation} {"op": "clear_key"}
             that actor's task then lives on a runtime of its own, which the op shuts down; afterwards every call on
             its handle returns Err (get_*_rules -> the handler's 500 "rules lookup failure"; increase_connection_count
             -> 500).  With agent_status dead, result["summary"]["failed"/"ok"] are {"error": ...}.
-AUDIT       uid (logon id), pid ("self" = the driver, "helper" = a spawned `sleep`, or a number),
+            {"op": "helper_exec", "name"}  the exec helper `name` (scenario field exec_helpers: {name: [argv...]}: a process
+            whose image is `sh` until told otherwise) exec()s argv -- same pid, new image; returns when /proc/<pid>/exe changed.
+            result["helpers"] = {name: {pid, exe_before, exe_after}}
+AUDIT       uid (logon id), pid ("self" = the driver, "helper" = a spawned `sleep`, an exec helper's name, or a number),
             is_admin (1/0), dest_ip, dest_port
 
 RESULT
